@@ -20,7 +20,8 @@ use std::io::Write;
 use std::path::{Path, PathBuf};
 use std::time::Instant;
 
-pub const VERIF_DIR: &str = "/verif";
+/// Root of the verification tree: $RWSV_VERIF_DIR (set by ./check to its own directory), default /verif.
+pub fn verif_dir() -> String { std::env::var("RWSV_VERIF_DIR").unwrap_or_else(|_| "/verif".to_string()) }
 
 #[derive(Clone, Copy, PartialEq, Eq, Debug, Serialize, Deserialize)]
 pub enum Tier { Quick, Thorough }
@@ -94,7 +95,7 @@ impl KnownFindings {
     pub fn load() -> KnownFindings {
         let mut known = HashSet::new();
         let mut descriptions = BTreeMap::new();
-        let path = format!("{}/known_findings.txt", VERIF_DIR);
+        let path = format!("{}/known_findings.txt", verif_dir());
         if let Ok(text) = std::fs::read_to_string(&path) {
             for line in text.lines() {
                 let line = line.trim();
@@ -532,7 +533,7 @@ pub fn run_parent(spec: RunSpec, regressions: bool) -> i32 {
     // regressions first (replays of repaired defects), seconds
     let mut regression_count = 0u64;
     if regressions {
-        let rdir = PathBuf::from(VERIF_DIR).join("regressions");
+        let rdir = PathBuf::from(verif_dir()).join("regressions");
         if let Ok(rd) = std::fs::read_dir(&rdir) {
             let mut files: Vec<PathBuf> = rd.filter_map(|e| e.ok()).map(|e| e.path())
                 .filter(|p| p.file_name().and_then(|n| n.to_str()).map(|n| n.starts_with(&format!("{}-", spec.property)) && n.ends_with(".json")).unwrap_or(false)).collect();
@@ -594,7 +595,7 @@ pub fn run_parent(spec: RunSpec, regressions: bool) -> i32 {
             None => {
                 infra.push(format!("worker {} exceeded the watchdog of {} s (in-flight case kept in {})", w, spec.timeout_s, inflight_path.display()));
                 // keep the in-flight case for inspection
-                let keep = PathBuf::from(VERIF_DIR).join("replays");
+                let keep = PathBuf::from(verif_dir()).join("replays");
                 let _ = std::fs::create_dir_all(&keep);
                 if let Some(b) = InflightMap::read(&inflight_path) { let _ = std::fs::write(keep.join(format!("{}-watchdog-w{}.json", spec.property, w)), b); }
             }
@@ -621,7 +622,7 @@ pub fn run_parent(spec: RunSpec, regressions: bool) -> i32 {
                     if spec.hang_is_violation {
                         if known.is_known(&spec.property, &vsig) { *merged.known.entry(vsig).or_insert(0) += 1; } else { merged.violations.push(v); }
                     } else {
-                        let keep = PathBuf::from(VERIF_DIR).join("replays");
+                        let keep = PathBuf::from(verif_dir()).join("replays");
                         let _ = std::fs::create_dir_all(&keep);
                         let kp = keep.join(format!("{}-hang-w{}.json", spec.property, w));
                         let _ = std::fs::write(&kp, serde_json::to_vec_pretty(&v).unwrap());
@@ -645,7 +646,7 @@ pub fn run_parent(spec: RunSpec, regressions: bool) -> i32 {
         let d = known.descriptions.get(&(spec.property.clone(), sig.clone())).cloned().unwrap_or_default();
         println!("KNOWN-FINDING: property={} {} count={} {}", spec.property, sig, n, d);
     }
-    let rdir = PathBuf::from(VERIF_DIR).join("replays");
+    let rdir = PathBuf::from(verif_dir()).join("replays");
     let _ = std::fs::create_dir_all(&rdir);
     // one replay per signature
     let mut seen = HashSet::new();
@@ -697,7 +698,7 @@ pub fn run_parent(spec: RunSpec, regressions: bool) -> i32 {
         "wall_s": (wall * 1000.0).round() / 1000.0,
         "violations": merged.violations.len(),
     });
-    let edir = PathBuf::from(VERIF_DIR).join("evidence");
+    let edir = PathBuf::from(verif_dir()).join("evidence");
     let _ = std::fs::create_dir_all(&edir);
     std::fs::write(edir.join(format!("{}.json", spec.property)), serde_json::to_vec_pretty(&evidence).unwrap()).unwrap();
     println!("{} {} seed={} evaluations={} distinct_nontrivial={} known={} violations={} wall={:.1}s exit={}",
